@@ -78,6 +78,23 @@ CarryBridge == \A P \in PSet : \A cp \in Slots(P) :
        /\ ref.tl = A * M + e.lower                                          \* RefAgree, as the theorem states it
        /\ x.lower = l2 /\ x.range = r2 /\ x.sitN = n2 /\ (n2 > 0 => x.sitW = w2) /\ WordsToNat(x.bulk, W) = V2
        /\ RefEnc(ref, P, cp[1], cp[2]).tl = (IF renorm THEN (ref.tl + d) * B ELSE ref.tl + d)
+\* Bridge to theorem SealInverted of spec/proofs/RangeSeal.tla: in every reachable inverted state the sealed words are the
+\* held-back words with / without their carry, the top word pw of the (wrapped) point and the pinning words, exactly as the theorem
+\* reads them, and the theorem's hypotheses hold
+SealInvBridge == e.sitN > 0 =>
+    LET B == Pow2(W)
+        T == Pow2(K)
+        Q == B^(e.sitN - 1)
+        A == NumAcc(WordsToNat(e.bulk, W), e.sitN, e.sitW, Q, B)
+        wrap == e.lower + T - 1 >= M
+        point == IF wrap THEN e.lower + T - 1 - M ELSE e.lower + T - 1
+        pw == point \div T
+        uw == (e.lower + e.range - M) \div T
+        held == IF wrap THEN HeldCarry(e) ELSE HeldNoCarry(e)
+    IN /\ e.lower < M /\ e.range >= T /\ e.range < M /\ e.lower + e.range >= M
+       /\ SealWords(e) = held \o <<pw>> \o (IF uw = pw THEN Rep(0, NW - 1) ELSE <<>>)
+       /\ WordsToNat(e.bulk \o held, W) = (IF wrap THEN A + 1 ELSE A)
+       /\ ref.tl = A * M + e.lower /\ ref.tr = e.range
 RECURSIVE EncAfter(_)
 EncAfter(h) == IF h = <<>> THEN EncNew ELSE REnc(EncAfter(Front(h)), Last(h)[1], Last(h)[2], Last(h)[3])
 RECURSIVE DecStates(_, _)
